@@ -29,11 +29,13 @@ def replay_e1(case):
     t = core.Tally()
     extra = {"known": core.load_known_findings(pid)}
     jf = e1run.JUDGES.get(judge)
-    if jf is None:
+    if jf is None and judge in ("c17", "c18"):
         from . import lockstep
 
         jf = lockstep.make_judge(pid)
         extra.update(case.get("extra") or {})
+    elif jf is None:
+        jf = importlib.import_module("mc.props.%s" % judge).JUDGE
     jf(t, ex, witness, extra)
     print("replayed: kind=%s witness=%s op=%s raise_at=%s persistent=%s" % (kind, list(witness), list(op), case.get("raise_at"), case.get("persistent")))
     print("observed: outcome=%s state=%s" % (ex.outcome, forest.fmt_state(ex.post, ex.labels)))
